@@ -437,7 +437,13 @@ func TestC13_EXPIRY(t *testing.T) {
 		if err != nil || state == "" {
 			return viol("c13/setup", "no state issued: %v", err)
 		}
-		time.Sleep(time.Duration(c.AgeS) * time.Second)
+		// callbacks that fail on the way do not give the state a new lease of life: one with a code the provider refuses
+		// at 60 s, one with a bad ID token at 100 s
+		time.Sleep(60 * time.Second)
+		b.callback(in, state, "code-the-provider-does-not-know")
+		time.Sleep(40 * time.Second)
+		b.callback(in, state, W().IdP.NewCode(idp.CodeSpec{Sub: "s", Username: "late", Fault: "bad_sig"}))
+		time.Sleep(time.Duration(c.AgeS-100) * time.Second)
 		code := W().IdP.NewCode(idp.CodeSpec{Sub: "s", Username: "late"})
 		// the session cookie itself has MaxAge 120: a browser would have dropped it; present the callback with a fresh jar too
 		for _, br := range []*browser{b, newBrowser()} {
